@@ -344,6 +344,47 @@ def analyse(ctx):
     return ctx._loader
 
 
+def check_cache_key(ctx, rule):
+    """Every lookup in / insertion into the name cache made by the loader itself is keyed by the very name the Impl is
+    constructed with and records (so that two spellings never share an entry whose name() is the other's)."""
+    L = analyse(ctx)
+    u, f = L['unit'], L['fn']
+    F = ctx.facts(f)
+    from .c20 import map_access
+    # the name handed to the Impl constructor(s) of the load sites
+    built = set()
+    for x in walk(f):
+        if x.get('kind') in ('CXXNewExpr', 'CXXConstructExpr', 'CXXTemporaryObjectExpr') and 'Impl' in ((x.get('type') or {}).get('qualType') or ''):
+            for y in walk(x):
+                if y.get('kind') == 'CXXConstructExpr' and 'Impl' in ((y.get('type') or {}).get('qualType') or '') and call_args(y):
+                    built.add(F.ident_key(call_args(y)[0]))
+    n = 0
+    seen = set()
+    for (d, node) in L['cache']:
+        acc = map_access(node, ctx.G)
+        if acc is None or id(acc[1]) in seen:
+            continue
+        seen.add(id(acc[1]))
+        call = acc[1]
+        key = None
+        if call.get('kind') == 'CXXMemberCallExpr' and callee(call) and callee(call)[1] in ('find', 'count', 'at', 'contains', 'emplace', 'try_emplace',
+                                                                                             'insert_or_assign', 'erase') and call_args(call):
+            key = call_args(call)[0]
+        elif call.get('kind') == 'CXXOperatorCallExpr' and len(call_args(call)) == 2:
+            key = call_args(call)[1]
+        if key is None:
+            continue                # (a helper call, insert(pair), clear(): not a keyed access made here)
+        kk = F.ident_key(key)
+        n += 1
+        ctx.check3((kk in built) if built else None, rule, 'cache access at %s is keyed by the requested name' % pos(call), call,
+                   'the name cache is consulted / filled under the key %s while the Impl is built for (and reports) %s: two spellings '
+                   'of a name then share one entry, so what a load returns and what name() says depend on which spelling was loaded '
+                   'first' % (re.sub(r'#0x[0-9a-f]+', '', kk)[:80], sorted(re.sub(r'#0x[0-9a-f]+', '', b_) for b_ in built)),
+                   construct='cache-key', detail=re.sub(r'#0x[0-9a-f]+', '', kk)[:60],
+                   unknown_why='the construction of the Impl for the requested name was not found in the loader')
+    return n
+
+
 def _reach_from(g, starts, targets, cut=()):
     """(paths that contradict the constant last given to a flag local are not followed: cfg.reach)"""
     return g.reach(starts, targets, cut_nodes=cut)
